@@ -18,6 +18,10 @@ def main(argv):
         if "--tier" in argv:
             tier = argv[argv.index("--tier") + 1]
         seed = int(os.environ.get("VERIF_SEED", "0") or 0)
+        if "--evidence-dir" in argv:
+            check.EVIDENCE_DIR = argv[argv.index("--evidence-dir") + 1]
+        if "--replay-dir" in argv:
+            check.REPLAY_DIR = argv[argv.index("--replay-dir") + 1]
         return check.run_check(pid, tier, seed=seed)
     if argv and argv[0] == "setup":
         # self-test of the solvers; nothing to build (pure Python, stdlib + z3 from the tooling venv)
